@@ -171,12 +171,12 @@ pub fn run(ctx: &Ctx) -> i32 {
     if d.prop == "C04" {
         // end to end with the real hyper connections: one HTTP/2 connection per origin
         let e2e = crate::props::net::NetEngine { prop: "C04" };
-        total.merge(run_generated(ctx, &e2e, "netsim-h2-sharing", || crate::props::net::c04_e2e_strategy(8), ctx.cases(6_000, 300_000), 300));
+        total.merge(run_generated(ctx, &e2e, "netsim-h2-sharing", || crate::props::net::ordered(crate::props::net::c04_e2e_strategy(8)), ctx.cases(6_000, 300_000), 300));
     }
     if d.prop == "C15" {
         // end to end: connections still open at an HTTP/1 origin after everything completed
         let e2e = crate::props::net::NetEngine { prop: "C15" };
-        total.merge(run_generated(ctx, &e2e, "netsim-idle-bound", || crate::props::net::c15_e2e_strategy(8), ctx.cases(6_000, 300_000), 300));
+        total.merge(run_generated(ctx, &e2e, "netsim-idle-bound", || crate::props::net::ordered(crate::props::net::c15_e2e_strategy(8)), ctx.cases(6_000, 300_000), 300));
     }
     if d.prop == "C06" {
         total.merge(run_generated(ctx, &engine, "near-miss-origins", move || near_origins_strategy(d.profile, max_ops), ctx.cases(60_000, 1_500_000), 2000));
